@@ -9,7 +9,7 @@ from ..callgraph import all_nodes, get_cg
 from ..cfg import CFG, EXIT, RAISE
 from ..core import Ctx
 from ..flow import arg_of, bound_args, call_name, get_flow
-from ..project import AnalysisError, FuncInfo, ancestors, dotted, parent, src
+from ..project import AnalysisError, FuncInfo, ancestors, dotted, parent, root_name, src
 
 LEVEL = 'other'
 EXAMPLE = 'config/settings.yaml.example'
@@ -64,9 +64,33 @@ def r1(ctx: Ctx, run: FuncInfo, fl, loop) -> None:
         shared = sorted({l for l, _ops in leaves if l.startswith('global:') and l[7:] in rs.module.globals_assigned})
         stored = [s for s in rfl.cfg.stmts() if isinstance(s, ast.Assign) and any(isinstance(t, ast.Subscript) and isinstance(t.value, ast.Name) and t.value.id in rs.module.globals_assigned
                                                                                    for t in s.targets)]
+        # … nor in a table handed in by the caller (a per-run cache keyed by the format string shares the object just the same)
+        for s_ in rfl.cfg.stmts():
+            if isinstance(s_, ast.Assign):
+                for t in s_.targets:
+                    if isinstance(t, ast.Subscript) and isinstance(s_.value, ast.Name) and s_.value.id == 'format_spec' and root_name(t) in rs.params and root_name(t) != 'source':
+                        stored.append(s_)
+                if any(isinstance(t, ast.Name) and t.id == 'format_spec' for t in s_.targets) and isinstance(s_.value, ast.Subscript) and root_name(s_.value) in rs.params \
+                        and root_name(s_.value) != 'source':
+                    stored.append(s_)
         ctx.check(not shared and not stored, 'C11.R1', rs, 'spec-fresh', 'each source gets its own FormatSpec object',
-                  f'the FormatSpec that the source\'s own settings are written into is kept in / read from the module-level table {shared or [src(x.targets[0])[:40] for x in stored[:1]]}: '
+                  f'the FormatSpec that the source\'s own settings are written into is kept in / read from the shared table {shared or [src(x.targets[0])[:40] for x in stored[:1]]}: '
                   f'sources with the same format string share one object, so one source\'s delimiter / has_header / negate_amount leaks onto the others', ostores[0])
+    # a setting governs only what it names: resolving a source adds the private _… results to (the copy of) the source, it never fills in or changes a
+    # user-facing setting from another one (`delimiter: ";"` implying a decimal comma, say)
+    pub = []
+    for n_ in ast.walk(rs.node):
+        if isinstance(n_, ast.Assign):
+            for t in n_.targets:
+                if isinstance(t, ast.Subscript) and src(t.value) == 'source' and isinstance(t.slice, ast.Constant) and isinstance(t.slice.value, str) and not t.slice.value.startswith('_'):
+                    pub.append((n_, t.slice.value))
+        if isinstance(n_, ast.Call) and isinstance(n_.func, ast.Attribute) and src(n_.func.value) == 'source' and n_.func.attr in ('setdefault', 'update', 'pop') and n_.args:
+            k_ = n_.args[0].value if isinstance(n_.args[0], ast.Constant) else '?'
+            if not (isinstance(k_, str) and k_.startswith('_')):
+                pub.append((n_, k_))
+    ctx.check(not pub, 'C11.R1', rs, 'settings-not-derived', 'resolving a source only adds private _… keys; no setting is filled in from another one',
+              f'{src(pub[0][0])[:60] if pub else ""!r} sets the user-facing setting {pub[0][1] if pub else ""!r} while resolving the source: one setting now changes what another one governs '
+              f'(amounts of a `;`-delimited file with decimal points are read 100 times too large)', pub[0][0] if pub else None)
     for key in ('delimiter', 'has_header', 'negate_amount'):
         stores = [s for s in rfl.cfg.stmts() if isinstance(s, ast.Assign) and src(s.targets[0]) == f'format_spec.{key}']
         ok = len(stores) == 1 and src(stores[0].value) == f"source['{key}']" and (f"'{key}' in source", True) in rfl.cfg.guard_literals(stores[0])
@@ -164,6 +188,13 @@ def r1(ctx: Ctx, run: FuncInfo, fl, loop) -> None:
         ctx.check(not outside, 'C11.R1', run, 'wire:filepath-under-budget', 'the source file is looked up relative to the budget directory only',
                   f'{src(outside[0])[:70] if outside else ""!r} looks the file up without config_dir (relative to the working directory): a missing source silently reads an unrelated file '
                   f'of the same name from wherever tally was started, and is no longer reported as missing', outside[0] if outside else None)
+    from ._rows import crossed_arguments
+    crossed = list(crossed_arguments(proj, ('commands.run', 'commands.explain', 'commands.discover', 'config_loader', 'parsers', 'cli')))
+    for cf, cc, var, par in crossed:
+        ctx.fail('C11.R1', cf, f'crossed-argument:{var}', f'{src(cc)[:70]!r} passes `{var}` by position into the parameter `{par}` although the callee has a parameter `{var}`: '
+                 f'the setting reaches the wrong input', cc)
+    if not crossed:
+        ctx.ok('C11.R1', run, 'every positional argument of the loaders / parsers lands in the parameter of its own name', construct='crossed-argument:none')
     gt = fl.calls('get_transforms')
     ok = len(gt) == 1 and 'key:config:_merchants_file' in fl.atoms(gt[0].args[0], gt[0])
     ctx.check(ok, 'C11.R1', run, 'wire:transforms-file', 'transforms come from the configured merchants file', 'get_transforms is not given config[_merchants_file]', gt[0] if gt else None)
